@@ -25,6 +25,23 @@ enum Style {
     Reset { code: u64 },
     /// close capsule whose value is malformed
     Malformed { value: Vec<u8>, what: &'static str },
+    /// an incomplete frame followed by FIN (abrupt termination of the request stream)
+    Truncated { bytes: Vec<u8>, what: String },
+}
+
+fn capsule_bytes(code: u32, reason: &[u8], prelude: u8) -> Vec<u8> {
+    let mut bytes = vec![];
+    if prelude & 1 != 0 {
+        bytes.extend(h3::frame(h3::grease(9), b"grease before close"));
+    }
+    if prelude & 2 != 0 {
+        bytes.extend(h3::frame(h3::FRAME_DATA, &capsule::encode(0x1f * 3 + 0x17, b"unknown capsule")));
+    }
+    if prelude & 4 != 0 {
+        bytes.extend(crate::raw::headers_frame(&[(b"x-trailer", b"1")]));
+    }
+    bytes.extend(h3::frame(h3::FRAME_DATA, &capsule::close(code, reason)));
+    bytes
 }
 
 fn style_class(s: &Style) -> String {
@@ -49,6 +66,7 @@ fn style_class(s: &Style) -> String {
         Style::QuicClose { code, reason } => format!("quic-close|code={}B|reason={}", rv::size(*code), if reason.is_empty() { "0" } else if std::str::from_utf8(reason).is_ok() { "utf8" } else { "binary" }),
         Style::Reset { .. } => "reset".into(),
         Style::Malformed { what, .. } => format!("malformed|{what}"),
+        Style::Truncated { what, .. } => format!("truncated|{what}"),
     }
 }
 
@@ -59,6 +77,8 @@ enum State {
     PendingAccepts,
     /// streams in both directions mid-transfer + parked calls
     OpenStreams,
+    /// the terminating bytes travel in the same write as the request / response HEADERS
+    Coalesced,
 }
 
 #[derive(Debug, Clone, PartialEq, Eq)]
@@ -81,17 +101,7 @@ fn seen_of<T>(r: Waited<Result<T, ConnectionError>>) -> Seen {
 async fn terminate(live: &mut Live, style: &Style) -> Result<(), String> {
     match style {
         Style::Capsule { code, reason, prelude } => {
-            let mut bytes = vec![];
-            if prelude & 1 != 0 {
-                bytes.extend(h3::frame(h3::grease(9), b"grease before close"));
-            }
-            if prelude & 2 != 0 {
-                bytes.extend(h3::frame(h3::FRAME_DATA, &capsule::encode(0x1f * 3 + 0x17, b"unknown capsule")));
-            }
-            if prelude & 4 != 0 {
-                bytes.extend(crate::raw::headers_frame(&[(b"x-trailer", b"1")]));
-            }
-            bytes.extend(h3::frame(h3::FRAME_DATA, &capsule::close(*code, reason)));
+            let bytes = capsule_bytes(*code, reason, *prelude);
             let mut s = live.sess_send.take().ok_or("session stream taken")?;
             s.write_all(&bytes).await.map_err(|e| e.to_string())?;
             live.peer.keep_s(s);
@@ -112,6 +122,12 @@ async fn terminate(live: &mut Live, style: &Style) -> Result<(), String> {
             s.write_all(&h3::frame(h3::FRAME_DATA, &capsule::encode(capsule::CLOSE_WEBTRANSPORT_SESSION, value))).await.map_err(|e| e.to_string())?;
             live.peer.keep_s(s);
         }
+        Style::Truncated { bytes, .. } => {
+            let mut s = live.sess_send.take().ok_or("session stream taken")?;
+            s.write_all(bytes).await.map_err(|e| e.to_string())?;
+            s.finish().map_err(|e| e.to_string())?;
+            live.peer.keep_s(s);
+        }
     }
     Ok(())
 }
@@ -121,6 +137,13 @@ async fn run_case(role: Role, style: Style, state: State, rep: &mut Report) {
     rep.eval(cls.clone());
     let mut script = Script::plain(role);
     script.pause = ms(1);
+    if state == State::Coalesced {
+        match &style {
+            Style::Capsule { code, reason, prelude } => script.headers.extend(capsule_bytes(*code, reason, *prelude)),
+            Style::Malformed { value, .. } => script.headers.extend(h3::frame(h3::FRAME_DATA, &capsule::encode(capsule::CLOSE_WEBTRANSPORT_SESSION, value))),
+            _ => unreachable!("coalesced is only built for capsule styles"),
+        }
+    }
     let mut live = match scen::establish(role, &script, Duration::from_secs(8)).await {
         Ok(l) => l,
         Err(e) => {
@@ -145,7 +168,7 @@ async fn run_case(role: Role, style: Style, state: State, rep: &mut Report) {
             live.peer.keep_s(s);
         }
     }
-    let parked = state != State::Idle;
+    let parked = matches!(state, State::PendingAccepts | State::OpenStreams);
     let (h1, h2, h3_) = if parked {
         let (c1, c2, c3) = (conn.clone(), conn.clone(), conn.clone());
         let a = tokio::spawn(async move {
@@ -164,7 +187,9 @@ async fn run_case(role: Role, style: Style, state: State, rep: &mut Report) {
     } else {
         (None, None, None)
     };
-    if let Err(e) = terminate(&mut live, &style).await {
+    if state == State::Coalesced {
+        // already on the wire
+    } else if let Err(e) = terminate(&mut live, &style).await {
         rep.inconclusive(format!("{cls}: raw side: {e}"));
         return;
     }
@@ -218,7 +243,7 @@ async fn run_case(role: Role, style: Style, state: State, rep: &mut Report) {
         Style::Capsule { code, reason, .. } => Some((*code as u64, reason.clone())),
         Style::Fin => Some((0, vec![])),
         Style::QuicClose { code, reason } => Some((*code, reason.clone())),
-        Style::Reset { .. } | Style::Malformed { .. } => None,
+        Style::Reset { .. } | Style::Malformed { .. } | Style::Truncated { .. } => None,
     };
     let kind = match &style {
         Style::Capsule { .. } => "capsule",
@@ -226,6 +251,7 @@ async fn run_case(role: Role, style: Style, state: State, rep: &mut Report) {
         Style::QuicClose { .. } => "quic-close",
         Style::Reset { .. } => "reset",
         Style::Malformed { .. } => "malformed",
+        Style::Truncated { .. } => "truncated",
     };
     for (what, seen) in &observed {
         let call = what.split(' ').nth(1).unwrap_or("");
@@ -350,6 +376,25 @@ pub fn run(args: &Args) -> Report {
     styles.push(Style::Malformed { value: vec![0, 0, 1], what: "3-bytes" });
     styles.push(Style::Malformed { value: [vec![0, 0, 0, 9], vec![b'x'; 1025]].concat(), what: "reason-1025" });
     styles.push(Style::Malformed { value: vec![0, 0, 0, 9, 0xff, 0xfe], what: "non-utf8" });
+    // abrupt ends: FIN inside a frame, at every structurally different offset
+    let unknown = h3::frame(h3::grease(5), &vec![0xAB; 600]);
+    let hdr = unknown.len() - 600;
+    let mut cuts: Vec<usize> = vec![1, hdr - 1, hdr, hdr + 1, hdr + 255, hdr + 256, hdr + 257, hdr + 512, hdr + 599];
+    if args.thorough {
+        cuts.extend([hdr + 2, hdr + 128, hdr + 511, hdr + 513, hdr + 300]);
+    }
+    for c in cuts {
+        styles.push(Style::Truncated { bytes: unknown[..c].to_vec(), what: format!("unknown-frame@{}", if c <= hdr { format!("header+{c}") } else { format!("payload+{}", c - hdr) }) });
+    }
+    let close = h3::frame(h3::FRAME_DATA, &capsule::close(7, b"never complete"));
+    for c in [1usize, 2, 3, 6, close.len() - 1] {
+        styles.push(Style::Truncated { bytes: close[..c].to_vec(), what: format!("close-capsule@{c}/{}", close.len()) });
+    }
+    let mut after = h3::frame(h3::grease(1), b"complete");
+    after.extend(&close[..4]);
+    styles.push(Style::Truncated { bytes: after, what: "after-complete-unknown".into() });
+    let big = h3::frame_declared(h3::FRAME_DATA, 5000, &vec![1u8; 4096]);
+    styles.push(Style::Truncated { bytes: big, what: "data-4096-of-5000".into() });
     if args.thorough {
         for _ in 0..60 {
             let len = rng.usize(0, 1024);
@@ -368,6 +413,9 @@ pub fn run(args: &Args) -> Report {
                     continue;
                 }
                 cases.push((role, s.clone(), state));
+            }
+            if matches!(s, Style::Capsule { .. } | Style::Malformed { .. }) {
+                cases.push((role, s.clone(), State::Coalesced));
             }
         }
     }
